@@ -110,9 +110,10 @@ func genSession(g *genCtx) {
 				emit(Case{"pkg": pkg, "reqs": rs, "order": []int{0, 1, 2}})
 				emit(Case{"pkg": pkg, "reqs": rs, "order": []int{2, 0, 1}})
 			}
-			// constructors
+			// constructors and packet-building helpers
 			for _, s := range seqs {
 				emit(Case{"pkg": pkg, "ctor": true, "seq": be(uint64(s), 4)})
+				emit(Case{"pkg": pkg, "helpers": true, "seq": be(uint64(s), 4)})
 			}
 		}
 	}
@@ -200,6 +201,41 @@ func runSession(c Case, tr *Tracer) {
 			return
 		}
 		tr.emit(Ev{"ev": "Send", "type": typeNameOf(p), "v": be(uint64(seq), 4), "getseq": be(uint64(p.GetSequenceID()), 4), "getcmd": pduGetCmd(p), "bytes": B(b), "built": "ctor", "site": typeNameOf(p)})
+		return
+	}
+	if caseBool(c, "helpers") {
+		// the packet-building helpers return ready-made octets: sequence number at the header offset,
+		// command id of the type they promise, and the dispatcher must give that type back
+		seq := uint32(beUint(caseBytes(c, "seq")))
+		type hp struct {
+			name, want string
+			b          []byte
+		}
+		var hs []hp
+		switch pkg {
+		case "cmpp20":
+			hs = []hp{{"cmpp20.NewTerminatePacket", "cmpp20.PduTerminate", cmpp20.NewTerminatePacket(seq)}, {"cmpp20.NewActiveTestPacket", "cmpp20.PduActiveTest", cmpp20.NewActiveTestPacket(seq)}}
+		case "smgp30":
+			hs = []hp{{"smgp30.NewActiveTestPacket", "smgp30.ActiveTest", smgp30.NewActiveTestPacket(seq)}}
+		case "smpp34":
+			hs = []hp{{"smpp34.NewEnquireLinkReqBytes", "smpp34.EnquireLink", smpp34.NewEnquireLinkReqBytes(seq)}, {"smpp34.NewEnquireLinkRespBytes", "smpp34.EnquireLinkResp", smpp34.NewEnquireLinkRespBytes(seq)},
+				{"smpp34.NewUnBindRespBytes", "smpp34.UnBindResp", smpp34.NewUnBindRespBytes(seq)}, {"smpp34.NewDeliverySMRespBytes", "smpp34.DeliverSmResp", smpp34.NewDeliverySMRespBytes(seq)},
+				{"smpp34.NewUnBindBytes", "smpp34.Unbind", smpp34.NewUnBindBytes(seq)}}
+		}
+		for _, h := range hs {
+			if len(h.b) < 16 && pkg == "smpp34" || len(h.b) < 12 {
+				tr.emit(Ev{"ev": "Disp", "pkg": pkg, "cmd": []int{0, 0, 0, 0}, "res": "short:" + h.name, "site": h.name})
+				continue
+			}
+			dt, p := dispatchName(pkg, h.b)
+			gc := []int{}
+			gs := []int{}
+			if p != nil {
+				gc, gs = pduGetCmd(p), be(uint64(p.GetSequenceID()), 4)
+			}
+			tr.emit(Ev{"ev": "Send", "type": h.want, "v": be(uint64(seq), 4), "getseq": gs, "getcmd": gc, "bytes": B(h.b), "built": "ctor", "site": h.name})
+			tr.emit(Ev{"ev": "Helper", "want": h.want, "dtype": dt, "bytes": B(h.b), "site": h.name})
+		}
 		return
 	}
 	if sc := caseList(c, "script"); sc != nil {
